@@ -1622,6 +1622,9 @@ impl FrameHeader {
         offset: FrameOffset,
     ) -> Result<Self, VerifyError> {
         verify_block_size!("block_size", block_size)?;
+        // Ranges must be checked before narrowing the values.
+        verify_range!("bits_per_sample", bits_per_sample, ..=(u8::MAX as usize))?;
+        verify_range!("sample_rate", sample_rate, ..=(u32::MAX as usize))?;
         let block_size_spec = BlockSizeSpec::from_size(block_size as u16);
         let sample_size_spec =
             SampleSizeSpec::from_bits(bits_per_sample as u8).ok_or_else(|| {
@@ -1633,6 +1636,10 @@ impl FrameHeader {
             "32-bit encoding is not supported currently."
         )?;
         channel_assignment.verify()?;
+        if let FrameOffset::StartSample(n) = offset {
+            // the coded number has 36 bits at maximum.
+            verify_range!("offset", n, ..(1u64 << 36))?;
+        }
         let sample_rate_spec = SampleRateSpec::from_freq(sample_rate as u32)
             .ok_or_else(|| VerifyError::new("sample_rate", "must be in a supported range."))?;
         let mut ret = Self::from_specs(
@@ -1941,6 +1948,7 @@ impl Verbatim {
     /// # }
     /// ```
     pub fn new(samples: &[i32], bits_per_sample: usize) -> Result<Self, VerifyError> {
+        verify_block_size!("samples.len", samples.len())?;
         verify_bps!("bits_per_sample", bits_per_sample)?;
         for v in samples {
             verify_sample_range!("samples", *v, bits_per_sample)?;
